@@ -150,6 +150,8 @@ class Translator:
         self.spans = {}          # C name -> (file, begin line, end line)
         self.dropped = set()     # constructs dropped (reported as assumptions)
         self.pending = []        # (decl, cname) still to translate
+        self.local_lambdas = {}  # VarDecl id of a local lambda -> helper function info
+        self.lambda_queue = []
         self.loaded = set()
         self.fn_cname = {}       # decl id -> C name
         self.tmp = 0
@@ -641,6 +643,16 @@ class Translator:
                     return True
             return False
         walk(body)
+        if len(cands) > 1:
+            # a lambda body is printed twice by clang (inside the closure class and as the lambda's body): same source range, one statement
+            seen, uniq = set(), []
+            for c in reversed(cands):
+                r = c.get('range', {})
+                key = (r.get('begin', {}).get('offset'), r.get('end', {}).get('offset'))
+                if key not in seen or key == (None, None):
+                    seen.add(key)
+                    uniq.append(c)
+            cands = list(reversed(uniq))
         if len(cands) != 1:
             raise astdump.ExtractionError('segment %s: %d statements of kind %s mention %s (code moved or rewritten?)'
                                           % (cname, len(cands), seg['kind'], seg.get('mentions')))
@@ -966,6 +978,16 @@ class Translator:
             if re.fullmatch(pat, qt):
                 self.dropped.add('local of type %s (no effect on verified state)' % qt)
                 return ''
+        if qt.startswith('(lambda at') and v.get('inner'):
+            # a local lambda that is only called by name: translated as a helper function of its own; what it captures by reference
+            # (the enclosing function's locals and parameters it mentions, and `this`) becomes by-reference parameters
+            lam0 = self.find_node(v, 'LambdaExpr')
+            if lam0 is None:
+                raise Unsupported('lambda variable %s without a lambda expression' % v.get('name'))
+            cn = '%s__%s' % (self.cur_fn, v['name'])
+            self.local_lambdas[v['id']] = self.prepare_lambda(lam0, cn)
+            self.locals[-1][v['id']] = CT('char')
+            return ''
         if re.fullmatch(r'ScopeDefer<.*>', qt) or re.fullmatch(r'ScopeDefer<.*>', norm(v.get('type', {}).get('desugaredQualType', '') or '')):
             # llbuild_defer { body }: the (by-reference capturing) lambda body runs at every exit of the enclosing scope
             lam = []
@@ -1149,6 +1171,111 @@ class Translator:
                     if d['kind'] == 'CXXRecordDecl' and d.get('completeDefinition'):
                         return d
         return None
+
+    def find_node(self, x, kind):
+        if isinstance(x, dict):
+            if x.get('kind') == kind:
+                return x
+            for c in x.get('inner', []):
+                r = self.find_node(c, kind)
+                if r is not None:
+                    return r
+        return None
+
+    def prepare_lambda(self, lam, cname):
+        """Signature of the helper function for a local lambda; the body is translated after the enclosing function."""
+        rec = next((c for c in lam.get('inner', []) if c.get('kind') == 'CXXRecordDecl'), None)
+        op = next((c for c in (rec or {}).get('inner', []) if c.get('kind') == 'CXXMethodDecl' and c.get('name') == 'operator()'), None)
+        body = next((c for c in reversed(lam.get('inner', [])) if c.get('kind') == 'CompoundStmt'), None)
+        if op is None or body is None:
+            raise Unsupported('lambda without call operator or body in %s' % self.cur_fn)
+        fq = self.qt(op)
+        m = re.match(r'(.*?)\s*\(', fq)
+        rtxt = m.group(1)
+        if '->' in fq:
+            rtxt = fq.rsplit('->', 1)[1].strip()        # trailing return type
+        ret = self.ctype(rtxt)
+        own_params = [p for p in op.get('inner', []) if p.get('kind') == 'ParmVarDecl']
+        declared, used, order, uses_this = set(p['id'] for p in own_params), {}, [], [False]
+
+        def scan(x):
+            if not isinstance(x, dict):
+                return
+            k = x.get('kind')
+            if k in ('VarDecl', 'BindingDecl'):
+                declared.add(x.get('id'))
+            if k == 'CXXThisExpr':
+                uses_this[0] = True
+            if k == 'DeclRefExpr':
+                r = x.get('referencedDecl') or {}
+                if r.get('kind') in ('VarDecl', 'ParmVarDecl') and r.get('id') not in used:
+                    used[r['id']] = r
+                    order.append(r['id'])
+            for c in x.get('inner', []):
+                scan(c)
+        scan(body)
+        free = []
+        for i in order:
+            if i in declared:
+                continue
+            t0 = self.local_type(i)
+            if t0 is None:
+                continue            # a global / static: visible to the helper as it is
+            free.append((i, used[i].get('name'), t0))
+        info = {'cname': cname, 'ret': ret, 'own': own_params, 'free': free, 'this': uses_this[0], 'body': body,
+                'cls': getattr(self, 'cur_class', None), 'lam': lam}
+        self.lambda_queue.append(info)
+        self.dropped.add('local lambda %s: translated as a helper function; captured by reference: %s%s'
+                         % (cname, ', '.join(f[1] for f in free) or '(nothing)', ' and this' if uses_this[0] else ''))
+        return info
+
+    def call_lambda(self, info, argnodes):
+        args = []
+        if info['this']:
+            args.append('self')
+        for (i, name, t0) in info['free']:
+            nm = getattr(self, 'local_names', {}).get(i, name)
+            args.append(nm if (t0.ref or t0.dims) else '&' + nm)
+        args += self.lower_args(argnodes, None, [self.ntype(p) for p in info['own']])
+        return '%s(%s)' % (info['cname'], ', '.join(args))
+
+    def translate_lambda(self, info):
+        cname = info['cname']
+        if cname in self.funcs:
+            return
+        self.funcs[cname] = None
+        self.cur_fn = cname
+        self.loop_ord = 0
+        self.tmp = 0
+        self.contract = self.u.get('helper_contracts', {}).get(cname, {})
+        self.locals = [{}]
+        self.defers = [[]]
+        self.seg_exits = False
+        self.ret_type = info['ret']
+        params = []
+        if info['this']:
+            self.cur_class = info['cls']
+            params.append(self.ctype(info['cls']).c(1) + 'self')
+        for (i, name, t0) in info['free']:
+            t = t0 if (t0.ref or t0.dims) else CT(t0.base, t0.ptr, True, t0.const, t0.cxx)
+            self.locals[-1][i] = t
+            params.append(t.decl(name))
+        for j, p in enumerate(info['own']):
+            t = self.ntype(p)
+            if t.ref and self.is_byval(t):
+                t = CT(t.base, t.ptr, False, t.const, t.cxx)
+            self.locals[-1][p['id']] = t
+            params.append(t.decl(p.get('name') or ('_p%d' % j)))
+        head = '%s %s(%s)' % (info['ret'].c().strip(), cname, ', '.join(params) or 'void')
+        self.protos[cname] = (info['lam'].get('id', cname), head + ';')
+        if not hasattr(self, 'sigs'):
+            self.sigs = {}
+        self.sigs[cname] = (info['ret'].c().strip(), list(params))
+        rng = info['body'].get('range', {})
+        self.spans[cname] = (rng.get('begin', {}).get('file'), rng.get('begin', {}).get('line'), rng.get('end', {}).get('line'))
+        btext = self.block(info['body'])
+        self.funcs[cname] = head + '\n' + self.weave_fn(dict(self.contract)) + btext + '\n'
+        self.func_order.append(cname)
 
     def vardecl_hook(self, v):
         return None
@@ -1877,6 +2004,11 @@ class Translator:
         opname = callee['referencedDecl']['name']   # e.g. operator==
         op = opname[len('operator'):]
         a0 = argnodes[0]
+        if op == '()':
+            tgt = self.peel(a0)
+            rid = (tgt.get('referencedDecl') or {}).get('id') if tgt.get('kind') == 'DeclRefExpr' else None
+            if rid in self.local_lambdas:
+                return self.call_lambda(self.local_lambdas[rid], argnodes[1:])
         keys = ['o:%s:%s' % (op, self.objtype(a0))]
         d0 = self.objtype_desugared(a0)
         if d0:
@@ -2037,7 +2169,10 @@ class Translator:
         for qual, spec in self.u['functions'].items():
             self.translate_function(spec['_decl'], spec['_cname'], spec)
         depth = 0
-        while self.pending:
+        while self.pending or self.lambda_queue:
+            if self.lambda_queue:
+                self.translate_lambda(self.lambda_queue.pop(0))
+                continue
             d, cn = self.pending.pop(0)
             if cn in self.funcs:
                 continue
